@@ -60,6 +60,38 @@ example : (makeParameter (.intLit 9223372036854775807)).map bindParam = some (.i
     (makeParameter (.arr [])).map bindParam = some (.blob []) ∧
     (makeParameter (.arr [some 1, some 256])).map bindParam = none := by decide
 
+/-- named parameters (members of a JSON object) keep their name and are converted like positional
+ones: every produced parameter carries its member's name and the value `makeParameter` gives it -/
+theorem named_parameters_keep_name_and_value (ms : List (String × JParam)) (ps : List (String × Param))
+    (h : parseArgs [.named ms] = some ps) :
+    ps.map (·.1) = ms.map (·.1) ∧
+    ∀ kp ∈ ms.zip ps, makeParameter kp.1.2 = some kp.2.2 := by
+  simp only [parseArgs, Option.bind_eq_bind, Option.pure_def, Option.bind_some, List.append_nil] at h
+  induction ms generalizing ps with
+  | nil => simp at h; subst h; simp
+  | cons kv ms ih =>
+    simp only [List.mapM_cons, Option.bind_eq_bind, Option.pure_def] at h
+    cases hm : makeParameter kv.2 with
+    | none => simp [hm] at h
+    | some p =>
+      simp only [hm, Option.map_some, Option.bind_some] at h
+      cases hr : ms.mapM (fun (kv : String × JParam) => (makeParameter kv.2).map fun p => (kv.1, p)) with
+      | none => simp [hr] at h
+      | some rest =>
+        simp only [hr, Option.bind_some, Option.some.injEq] at h
+        subst h
+        obtain ⟨i1, i2⟩ := ih rest (by simp [hr])
+        refine ⟨by simp [i1], ?_⟩
+        intro kp hkp
+        simp only [List.zip_cons_cons, List.mem_cons] at hkp
+        rcases hkp with h1 | h1
+        · subst h1; exact hm
+        · exact i2 kp h1
+
+/-- a rejected member rejects the request -/
+example : parseArgs [.named [("a", .intLit 1), ("b", .obj)]] = none ∧
+    parseArgs [.pos (.intLit 1), .named [("a", .str "x'00'")]] = some [("", .i 1), ("a", .y [0])] := by decide
+
 /-! ### the hex literal rule, stated explicitly -/
 
 /-- a string parameter is a blob exactly when `ParseHex` accepts it, and then it is the decoded
@@ -220,6 +252,55 @@ theorem readback_lossless_full_is_false : ¬ readback_lossless_full := by
   cases h1
   rw [this.2] at h2
   cases h2
+
+/-! ### the associative form -/
+
+theorem find_last_nodup (cols : List String) (vals : List JOut) (i : Nat) (hn : cols.Nodup)
+    (hl : vals.length = cols.length) (hi : i < cols.length) :
+    assocGet cols vals cols[i] = some (vals[i]'(by omega)) := by
+  induction cols generalizing vals i with
+  | nil => simp at hi
+  | cons c cs ih =>
+    cases vals with
+    | nil => simp at hl
+    | cons v vs =>
+      simp only [List.length_cons, Nat.add_right_cancel_iff] at hl
+      simp only [List.nodup_cons] at hn
+      unfold assocGet
+      simp only [List.zip_cons_cons, List.reverse_cons, List.find?_append]
+      cases i with
+      | zero =>
+        simp only [List.getElem_cons_zero]
+        have : (cs.zip vs).reverse.find? (fun kv => kv.1 == c) = none := by
+          rw [List.find?_eq_none]
+          intro kv hkv
+          have : kv.1 ∈ cs := by
+            have := List.mem_reverse.mp hkv
+            exact (List.of_mem_zip this).1
+          intro heq
+          simp only [beq_iff_eq] at heq
+          exact hn.1 (heq ▸ this)
+        simp [this]
+      | succ j =>
+        simp only [List.getElem_cons_succ]
+        have hj : j < cs.length := by simpa using hi
+        have := ih vs j hn.2 hl hj
+        unfold assocGet at this
+        cases hf : (cs.zip vs).reverse.find? (fun kv => kv.1 == cs[j]) with
+        | none => simp [hf] at this
+        | some kv => simp [hf] at this ⊢; exact this
+
+/-- With distinct column names the associative form holds, for every column, exactly the value the
+array form holds at that column's position. -/
+theorem associative_equals_array (cols : List String) (vals : List JOut) (hn : cols.Nodup)
+    (hl : vals.length = cols.length) :
+    ∀ i (hi : i < cols.length), assocGet cols vals cols[i] = some (vals[i]'(by omega)) :=
+  fun i hi => find_last_nodup cols vals i hn hl hi
+
+/-- a repeated column name loses the earlier column's value in the associative form (a JSON object
+cannot hold both) - `SELECT 1 AS a, 2 AS a` -/
+theorem associative_duplicate_witness :
+    assocGet ["a", "a"] [.num 1, .num 2] "a" = some (.num 2) := by decide
 
 /-! ### the whole way: parameter in, expression out
 A parameter read straight back (`SELECT ?`) is an expression, i.e. a text-typed column. -/
